@@ -95,6 +95,8 @@ CLAIMED['C05'] = {
     'design_ref': 'DESIGN.md 4 (C05)',
 }
 
+EXTENDED = {'C19': " Extended since (DESIGN.md 9.6b): 13 leaf kinds incl. lazy __await__ objects, re-awaitable objects, futures completed in an earlier loop, array-valued and falsy results; containers incl. user subclasses, named_dict records, the library's dictable, tuple keys, hundreds of members, the same container twice; two rounds on the same containers (refilled, re-keyed, after a failed first round, first result extended and waited on again); a concurrent independent waiter; keyword call form.", 'C17': ' Extended since (DESIGN.md 9.6b): several versions merged in one call (also a caller-owned list reused), plain series with asof=, stores started from plain old data, corrections swapping held values, forward-dated series, integer first versions with fractional revisions, nanosecond Timestamp stamps, as-of times as datetime / Timestamp / datetime64 / none, callable `what` that reads the store, a second consumer catching up from an earlier store object, a second store fed in alternation, malformed versions whose merge raises.', 'C20': ' Extended since (DESIGN.md 9.6b): dict-output functions, options col / if_none / include_inputs / output_is_input / renames / explicit and formula defaults / default expiry, keyword-only parameters, the lifted function being a library wrapper, inputs keyed by a subset of the keys, wide input tables, None as a value, big and mixed-case and mixed-type key sets, the join called directly, f raising mid-call, f re-entering the same and another lifted function and join.', 'C01': ' Extended since (DESIGN.md 9.6b): about 45 operation kinds incl. range and numpy selectors, table-to-table assignment, chains of formulas, **kw and keyword-only formulas, affix renames, concat of up to 17 tables, filter dicts reused by the caller, edits of returned objects; user callables that re-enter the library on live tables; half-read iterators kept across mutations; tables of a user subclass; columns named data / columns / key; per-run locality and reads repeated right after in-place changes.', 'C05': ' Extended since (DESIGN.md 9.6b): re-registration by one argument only, with empty / duplicated / in-place edited holiday lists, from the object with another weekend; calendars derived by copy and by the mapping idioms; sibling calendars in alternation; earlier objects used after re-registration; module-level clock(); add on series with a re-entrant aggregate callback; dates as date / Timestamp (with nanoseconds) / with odd times of day; listings and adds at the edges of the range; holidays outside the range; dozens of foreign keys.', 'C18': ' Extended since (DESIGN.md 9.6b): generated functions with *args / **kw / keyword order sensitivity / an axis parameter / marker-object defaults / a local variable; argument objects owned and edited by the caller, dict subclasses and ranges as arguments; floods of thousands of keys; recursion through cache and through try wrappers; getargs / getcallargs / call_with_callargs incl. re-entrant use of the callargs dict; user subclasses of decorators; one decorator object for two functions; functions sharing a code object; functools.wraps-decorated and default-reassigned functions; interrupts and transient failures with retries on simulated sleep.'}
+
 NOT_APPLICABLE = {
     'C02': 'join/xor: result and termination are a function of the two argument tables of one call; no schedule, clock, shared state or fault to simulate.',
     'C03': 'df_sync/df_reindex/presync alignment: pure function of the argument collection and policy; presync wrappers hold no mutable state.',
@@ -133,7 +135,7 @@ def main():
             'evidence_file': '/verif/evidence/%s.json' % p,
             'replay_cmd_template': '%s /verif/check.py %s --replay {path}' % (PY, p),
             'engine': 'pygsim',
-            'level_claimed': {'category': 'exploration', 'text': c['text'], 'design_ref': c['design_ref']},
+            'level_claimed': {'category': 'exploration', 'text': c['text'] + EXTENDED.get(p, ''), 'design_ref': c['design_ref'] + ', 9.6b'},
             'level_note': c['note'],
             'technique': c['technique'],
         })
